@@ -145,9 +145,13 @@ REGISTRIES = {
 }
 
 
-def r_dup_name(ctx):
+def r_dup_name(ctx, only=None):
+    """`only`: the registry methods to look at (the per-kind properties share the rule for the registry of their own kind: an
+    element that is silently replaced under its name is never asserted)"""
     proj = ctx.project
     for meth, (reg, param) in REGISTRIES.items():
+        if only is not None and meth not in only:
+            continue
         runs = runs_of(ctx, Entry("method", cls="SchedulingProblem", name=meth))
         fails_closed(ctx, "R-DUP-NAME", runs)
         where = f"SchedulingProblem.{meth}"
@@ -165,6 +169,8 @@ def r_dup_name(ctx):
                 ctx.violation("R-DUP-NAME", where, "duplicate name rejected before insertion",
                               f"raise on `{show(key)} in self.{reg}`: {len(rs)}; stores: "
                               f"{[(show(e.data['key'])[:40], show(e.data['value'])[:30]) for e in st]}", first_line(proj, "SchedulingProblem"))
+    if only is not None and "add_buffer" not in only:
+        return
     runs = runs_of(ctx, Entry("method", cls="SchedulingProblem", name="add_buffer"))
     fails_closed(ctx, "R-DUP-NAME", runs)
     for r in runs:
